@@ -54,7 +54,7 @@ def one_exec(cfg, fail, corrupt):
     initial = {"empty": [], "partial": files[:1], "complete": files + dirs}[cfg["dest0"]]
     with World() as w:
         xw = XWorld(w, trees, dest_kind=cfg["dest"], dest_initial=initial, src_missing=src_missing,
-                    verify=cfg["verify"], corrupt=corrupt)
+                    verify=cfg["verify"], corrupt=corrupt, dest_state=cfg.get("dstate", False))
         try:
             ids, shallow, universe = request_ids(trees, cfg["shape"])
             src_before = store_snapshot(xw.src.path)
@@ -232,6 +232,8 @@ def run_case(case):
             res["vac"]["faults_fired"] += info["fired"]
             if corrupt:
                 res["vac"]["verify_corrupt_runs"] += 1
+                if cfg.get("dstate"):
+                    res["vac"]["verify_corrupt_runs_with_state"] = res["vac"].get("verify_corrupt_runs_with_state", 0) + 1
             if cfg["src"] != "complete":
                 res["vac"]["both_sides_missing_runs"] += 1
             if cfg["dest0"] != "empty":
@@ -276,6 +278,10 @@ def configs(tier):
                                 continue
                             yield {"scenario": s, "shape": shape, "src": src, "dest0": dest0,
                                    "dest": dest, "verify": verify}
+                            if verify and dest0 != "complete":
+                                # the destination store keeps a hash-state database
+                                yield {"scenario": s, "shape": shape, "src": src, "dest0": dest0,
+                                       "dest": dest, "verify": verify, "dstate": True}
 
 
 def configs_hardlink():
@@ -388,7 +394,7 @@ def run(ctx):
         "E3: tree sets x request shape {files, shallow dir, closed, expanded} x source {complete, a file "
         "missing, a directory object missing} x destination {empty, partial, complete} x both destination "
         "classes x every subset of failing uploads; under verify additionally every subset of corrupt source "
-        "files (x <= 1 failing upload); histories push T1 with a destination index -> every subset of its objects vanishes from the destination -> second request (T2 closed / T1+T2 closed / files of T1) with and without a failing upload; non-trivial = a fault, a corrupt source or an incomplete source"
+        "files (x <= 1 failing upload), the destination with and without a hash-state database; histories push T1 with a destination index -> every subset of its objects vanishes from the destination -> second request (T2 closed / T1+T2 closed / files of T1) with and without a failing upload; non-trivial = a fault, a corrupt source or an incomplete source"
     )
     ctx.bound = {"scenarios": ["one", "sharing", "twopaths"] + (["three", "subset", "disjoint"] if ctx.tier == "thorough" else []),
                  "max_objects": 6}
@@ -399,7 +405,7 @@ def run(ctx):
         "an expanded request needs its directory object to be loadable from the source",
     ]
     ctx.require("faults_fired", "verify_corrupt_runs", "both_sides_missing_runs", "already_present_runs",
-                "stale_index_histories", "fetch_level_runs")
+                "stale_index_histories", "fetch_level_runs", "verify_corrupt_runs_with_state")
     cs = [{"cfg": c} for c in configs(ctx.tier)] + [{"cfg": c} for c in configs_enoent()]
     cs += [{"cfg": c} for c in configs_hardlink()]
     cs += [{"cfg": c} for c in configs_special()]
